@@ -100,7 +100,7 @@ contract(f"{C}::Calibrator.create_checkpoint", params={"file_name": "any"}, trus
 
 _M = "self.current_batch_index - old(self.current_batch_index)"
 contract(f"{C}::Calibrator.calibrate", params={"n_batches": "int"}, returns="tuple[arr2[real],arr1[real]]",
-         props=["C02", "C09", "C11", "C14", "C18"],
+         props=["C02", "C04", "C09", "C11", "C14", "C18"],
          requires=["n_batches >= 0", "ghost.open_sessions == 0", "not ghost.conv_seen"],
          may_raise=["Exception"],
          ensures=[
